@@ -6,7 +6,9 @@ EXTENDS TblOps, TLCExt, Json, IOUtils
 Tr == ndJsonDeserialize(IOEnv.TRACE_FILE)
 VARIABLES l, bad
 Init == l = 1 /\ bad = <<>>
-Judge(e) == Why(e.op, e.A, e.B, e.out)
+(* no object the session has seen earlier may change, except the receiver of an append (counted by the recorder, which keeps the
+   real objects: a result that IS one of the operands would be dragged along by a later in-place operation) *)
+Judge(e) == LET w == Why(e.op, e.A, e.B, e.out) IN IF w # "ok" THEN w ELSE IF e.out.earlier_altered > 0 THEN "EarlierObjectAltered" ELSE "ok"
 Next == /\ l <= Len(Tr)
         /\ bad' = IF Judge(Tr[l]) = "ok" THEN bad
                   ELSE Append(bad, [i |-> l, why |-> Judge(Tr[l]), ctx |-> Ctx(Tr[l].op, Tr[l].A), id |-> Tr[l].id])
